@@ -21,7 +21,70 @@ MISSING_W = {'missing': 1}
 # yaml rendering (flow-style JSON values; records line/col of every step)
 # --------------------------------------------------------------------------
 
-def yval(w) -> str:
+class Scalars:
+    """How string scalars are written (layout keys `scalars`, `anchors`): the same value as double-quoted JSON
+    text (default), single-quoted, plain where yaml reads it back as the same string, a `|-` / `>-` block
+    scalar (top-level step keys of block style only), and - `anchors` - with an anchor at the first use of a
+    text and an alias at every later use (ruamel's round-trip loader delivers anchored and block scalars as
+    SUBCLASSES of str). The value loaded is the same in every style."""
+    PLAIN_OK = re.compile(r'^[A-Za-z_][A-Za-z0-9_ .-]*[A-Za-z0-9_]$')
+    WORDS = {'true', 'false', 'null', 'yes', 'no', 'on', 'off', 'y', 'n', 'nan', 'inf'}
+    PRINTABLE = re.compile(r'^[\x20-\x7e]*$')
+    BLOCK_OK = re.compile(r'^[\x21-\x7e]([\x20-\x7e]*[\x21-\x7e])?$')
+
+    def __init__(self, lay):
+        self.style = (lay or {}).get('scalars')
+        self.anchors = bool((lay or {}).get('anchors'))
+        self.seen = {}
+        self.n = 0
+
+    def _one(self, s, style):
+        if style == 'single' and self.PRINTABLE.match(s):
+            return "'" + s.replace("'", "''") + "'"
+        if style == 'plain' and self.PLAIN_OK.match(s) and s.lower() not in self.WORDS and '  ' not in s \
+                and ' #' not in s and ': ' not in s:
+            return s
+        if style == 'plain' and self.PRINTABLE.match(s):
+            return "'" + s.replace("'", "''") + "'"
+        return json.dumps(s, ensure_ascii=True)
+
+    def _style(self):
+        if self.style == 'mixed':
+            self.n += 1
+            return ('single', 'literal', None, 'folded', 'plain')[self.n % 5]
+        return self.style
+
+    def inline(self, s):
+        """a string anywhere inside a flow collection"""
+        if self.anchors and s != '':
+            if s in self.seen:
+                return '*' + self.seen[s]
+            self.seen[s] = f'a{len(self.seen) + 1}'
+            st = self._style()
+            return f'&{self.seen[s]} ' + self._one(s, st if st in ('single', 'plain') else 'single')
+        st = self._style()
+        return self._one(s, st if st in ('single', 'plain') else None)
+
+    def top(self, s, indent):
+        """the value of a top-level key of a block-style step: block scalars are possible here"""
+        st = self._style()
+        if st in ('literal', 'folded') and self.BLOCK_OK.match(s):
+            head = '|-' if st == 'literal' else '>-'
+            if self.anchors:
+                if s in self.seen:
+                    return '*' + self.seen[s]
+                self.seen[s] = f'a{len(self.seen) + 1}'
+                head = f'&{self.seen[s]} {head}'
+            return head + '\n' + ' ' * (indent + 4) + s
+        if self.anchors and s != '':
+            if s in self.seen:
+                return '*' + self.seen[s]
+            self.seen[s] = f'a{len(self.seen) + 1}'
+            return f'&{self.seen[s]} ' + self._one(s, st if st in ('single', 'plain') else 'single')
+        return self._one(s, st if st in ('single', 'plain') else None)
+
+
+def yval(w, sty=None) -> str:
     """wire value -> yaml flow text. Only yaml-expressible kinds."""
     if w is None:
         return 'null'
@@ -32,20 +95,23 @@ def yval(w) -> str:
     if isinstance(w, int):
         return str(w)
     if isinstance(w, str):
-        return json.dumps(w, ensure_ascii=True)
+        return sty.inline(w) if sty is not None else json.dumps(w, ensure_ascii=True)
     if isinstance(w, list):
-        return '[' + ', '.join(yval(x) for x in w) + ']'
+        return '[' + ', '.join(yval(x, sty) for x in w) + ']'
     if 'f' in w:
         n, k = w['f']
         return repr(n / (1 << k))
     if 'd' in w:
-        return '{' + ', '.join(f'{yval(k)}: {yval(v)}' for k, v in w['d']) + '}'
+        return '{' + ', '.join(f'{yval(k)}: {yval(v, sty)}' for k, v in w['d']) + '}'
     if 'sic' in w:
         return '!sic ' + json.dumps(w['sic'], ensure_ascii=True)
     if 'py' in w:
         return '!py ' + json.dumps(py_src(w['py']), ensure_ascii=True)
+    if 'pyraw' in w:
+        # python source outside the modelled expression language (implementation-only directed cases)
+        return '!py ' + json.dumps(w['pyraw'], ensure_ascii=True)
     if 'jsonify' in w:
-        return '!jsonify ' + yval(w['jsonify'])
+        return '!jsonify ' + yval(w['jsonify'], sty)
     raise ValueError(f'not expressible in yaml: {w}')
 
 
@@ -57,11 +123,13 @@ def is_item(st):
     return isinstance(st, dict) and set(st) == {'item'}
 
 
-def step_pairs(st):
-    """[(key, yaml flow text)] of a complex step, in the order the keys are written."""
+def step_pairs(st, sty=None, indent=None, skip=()):
+    """[(key, yaml flow text)] of a complex step, in the order the keys are written. `sty`: how string scalars
+    are written; `indent` (block style only): column of the step's keys - then `|-` / `>-` are possible for
+    the values of the step's own keys."""
     out = []
     for key in STEP_KEYS:
-        if key not in st:
+        if key not in st or key in skip:
             continue
         v = st[key]
         if key == 'name':
@@ -71,20 +139,45 @@ def step_pairs(st):
             if isinstance(v, dict) and set(v) == {'bad'}:
                 txt = yval(v['bad'])          # `in:` that is no mapping (a yaml slip)
             else:
-                txt = 'null' if v is None else '{' + ', '.join(f'{yval(k)}: {yval(x)}' for k, x in v) + '}'
+                txt = 'null' if v is None else '{' + ', '.join(f'{yval(k)}: {yval(x, sty)}' for k, x in v) + '}'
         elif key in ('while', 'retry'):
             if v is None:
                 txt = 'null'
             elif 'bad' in v:
                 txt = yval(v['bad'])
             else:
-                txt = '{' + ', '.join(f'{k}: {yval(x)}' for k, x in v.items()) + '}'
+                txt = '{' + ', '.join(f'{k}: {yval(x, sty)}' for k, x in v.items()) + '}'
+        elif isinstance(v, str) and sty is not None and indent is not None:
+            txt = sty.top(v, indent)
         else:
-            txt = yval(v)
+            txt = yval(v, sty)
         out.append((key, txt))
-    if not out:
+    if not out and not skip:
         raise ValueError('step without keys')
     return out
+
+
+MERGEABLE = ('run', 'skip', 'swallow', 'foreach', 'while', 'retry', 'onError')
+
+
+def merge_defs(pipe, sty):
+    """layout `merge`: the decorators of every complex step move into an anchored mapping under the extra
+    top-level key `zdefs` and the step pulls them in with a merge key (`<<: *m1`): the common way of giving
+    many steps one retry / swallow policy. Identical decorator sets share one anchor."""
+    defs, order = {}, []
+    for _, steps in pipe['groups']:
+        for st in steps_of(steps):
+            if isinstance(st, dict) and not is_item(st) and isinstance(st.get('name'), str):
+                if any(k in st for k in MERGEABLE) and not any(
+                        isinstance(st.get(k), dict) and 'bad' in st[k] for k in ('while', 'retry')) \
+                        and not any(k in st and st[k] is None for k in ('while', 'retry')):
+                    pairs = step_pairs({k: st[k] for k in MERGEABLE if k in st}, sty)
+                    txt = '{' + ', '.join(f'{k}: {t}' for k, t in pairs) + '}'
+                    if txt not in defs:
+                        defs[txt] = f'm{len(defs) + 1}'
+                        order.append(txt)
+                    st['_merge'] = defs[txt]
+    return [(defs[t], t) for t in order]
 
 
 PLAIN = re.compile(r'^[A-Za-z_][A-Za-z0-9_.]*$')
@@ -109,16 +202,34 @@ def render_pipe(pipe) -> str:
       indent  block: column offset of the dash (0, 2, 4)
       dashsplit block: the dash alone on its line, the mapping on the next
       lead    number of comment lines before the document; docstart: a '---' line
+      scalars how string values are written: absent = double-quoted (JSON), 'single', 'plain' (where yaml reads the
+              same string back), 'literal' / 'folded' (`|-` / `>-` for the values of a block-style step's own keys),
+              'mixed' (cycling through them)
+      anchors every distinct text gets an anchor at its first use and is an alias from then on (the loader
+              delivers anchored and block scalars as subclasses of str)
+      merge   block: the decorators of every step stand in an anchored mapping under the extra top-level key
+              `zdefs` and reach the step through a merge key (`<<: *m1`)
     """
     lay = pipe.get('layout') or {}
     style = lay.get('style', 'block')
     lines = ['# generated'] * int(lay.get('lead', 0))
     if lay.get('docstart'):
         lines.append('---')
+    sty = Scalars(lay) if (lay.get('scalars') or lay.get('anchors')) else None
+    for _, steps_ in pipe['groups']:
+        for st_ in steps_of(steps_):
+            if isinstance(st_, dict):
+                st_.pop('_merge', None)
     if style == 'block':
         ind = ' ' * int(lay.get('indent', 2))
         if pipe.get('parser'):
             lines.append(f"context_parser: {pipe['parser']}")
+        if lay.get('merge'):
+            mdefs = merge_defs(pipe, sty)
+            if mdefs:
+                lines.append('zdefs:')
+                for nm, txt in mdefs:
+                    lines.append(f'{ind}- &{nm} {txt}')
         for gname, steps in pipe['groups']:
             if steps is None:
                 lines.append(f'{gname}:')
@@ -137,16 +248,19 @@ def render_pipe(pipe) -> str:
                 if is_item(st):
                     lines.append(f"{ind}- {yval(st['item'])}")
                     continue
-                pairs = step_pairs(st)
+                mg = st.pop('_merge', None)
+                pairs = step_pairs(st, sty, len(ind) + 2, skip=MERGEABLE if mg else ())
+                if mg:
+                    pairs.insert(1 if pairs and pairs[0][0] == 'name' else 0, ('<<', '*' + mg))
                 if lay.get('dashsplit'):
                     lines.append(f'{ind}-')
                     st['line'], st['col'] = len(lines) + 1, len(ind) + 3
-                    lines.append(f'{ind}  {pairs[0][0]}: {pairs[0][1]}')
+                    lines.extend(f'{ind}  {pairs[0][0]}: {pairs[0][1]}'.split('\n'))
                 else:
                     st['line'], st['col'] = len(lines) + 1, len(ind) + 3
-                    lines.append(f'{ind}- {pairs[0][0]}: {pairs[0][1]}')
+                    lines.extend(f'{ind}- {pairs[0][0]}: {pairs[0][1]}'.split('\n'))
                 for key, txt in pairs[1:]:
-                    lines.append(f'{ind}  {key}: {txt}')
+                    lines.extend(f'{ind}  {key}: {txt}'.split('\n'))
         return '\n'.join(lines) + '\n'
     # flow styles: the text is built piece by piece so that the position of every opening brace is known
     quote = bool(lay.get('quote'))
@@ -185,7 +299,7 @@ def render_pipe(pipe) -> str:
                 emit(yval(st['item']))
             else:
                 st['line'], st['col'] = here()
-                pairs = step_pairs(st)
+                pairs = step_pairs(st, sty)
                 emit('{' + ', '.join(
                     f'{key(k)}: ' + (scalar(st['name']) if k == 'name' and isinstance(st['name'], str) else t)
                     for k, t in pairs) + '}')
@@ -449,12 +563,30 @@ class Impl:
         # wall-clock budget per case: an implementation that never returns (a retry that re-attempts an
         # instruction for ever, a loop that lost its exit) is an observation ('outOfFuel'), not a hang
         import signal
+        import logging
+
+        budget = {'active': True}
 
         def _alarm(signum, frame):
-            raise CaseBudget()
+            # raised again every quarter of a second until it gets through: library code with a bare `except:`
+            # (ruamel's CommentedMap.get, which the probe step calls on its configuration) swallows the first one
+            if budget['active']:
+                raise CaseBudget()
+        # the log level is part of the input: prog['log'] = 10 (DEBUG) / 20 (INFO) / 25 (NOTIFY) runs the case with
+        # logging switched on at that level on the root logger and a sink that drops every record (what
+        # `pypyr --log 10` or an embedding application's logging configuration does); absent = logging disabled.
+        # What a pipeline does must not depend on it.
+        log_level = prog.get('log')
+        log_state = None
+        if isinstance(log_level, int) and log_level > 0:
+            root = logging.getLogger()
+            log_state = (logging.root.manager.disable, root.level, root.handlers[:])
+            logging.disable(logging.NOTSET)
+            root.handlers = [logging.NullHandler()]
+            root.setLevel(log_level)
         try:
             old_handler = signal.signal(signal.SIGALRM, _alarm)
-            signal.setitimer(signal.ITIMER_REAL, float(os.environ.get('VERIF_FLOW_CASE_S', '20')))
+            signal.setitimer(signal.ITIMER_REAL, float(prog.get('budget_s') or os.environ.get('VERIF_FLOW_CASE_S', '20')), 0.25)
             armed = True
         except ValueError:      # not in the main thread
             armed = False
@@ -485,22 +617,42 @@ class Impl:
                 ret = self.pr.run(root_name, **kwargs)
             outcome = 'ok'
         except (RecursionError, CaseBudget):
+            budget['active'] = False
             outcome = 'outOfFuel'
         except Exception as e:  # noqa
             outcome = {'err': {'id': objs.setdefault(id(e), len(objs) + 1000), 'name': common.exc_name(e),
                                'msg': str(e)}}
             self._keep = e
         finally:
+            budget['active'] = False
             if armed:
                 signal.setitimer(signal.ITIMER_REAL, 0)
                 signal.signal(signal.SIGALRM, old_handler)
             _config.default_backoff = _old_backoff
+            if log_state is not None:
+                root = logging.getLogger()
+                root.handlers = log_state[2]
+                root.setLevel(log_state[1])
+                logging.disable(log_state[0])
         ctx = ret if ret is not None else self.last_ctx
         try:
             ctxw = enc(dict(ctx), objs) if ctx is not None else None
         except ValueError as e:
-            ctxw = {'unencodable': str(e)}
+            # key by key: a value outside the wire language (a `!py` string of an implementation-only case left
+            # behind by an instruction, an iterator) is named as such, the other keys stay judgeable
+            pairs = []
+            for k_, v_ in dict(ctx).items():
+                try:
+                    pairs.append([enc(k_, objs), enc(v_, objs)])
+                except ValueError:
+                    pairs.append([k_ if isinstance(k_, str) else repr(k_), {'unencodable': type(v_).__name__}])
+            ctxw = {'d': pairs} if all(isinstance(k_, str) for k_ in dict(ctx)) else {'unencodable': str(e)}
         trace = []
+        if outcome == 'outOfFuel':
+            # a run that was cut off (recursion limit, wall-clock budget) may have produced millions of events:
+            # the first few hundred say what it was doing
+            del self.vprobe.TRACE[400:]
+            del self.sleeps[400:]
         for ev in self.vprobe.TRACE:
             def ov(x):
                 return MISSING_W if x is self.vprobe.MISSING else enc(x, objs)
@@ -530,6 +682,7 @@ def prepare(prog):
 
 def model_run(driver, prog, fuel=3000):
     prepare(prog)
+    fuel = int(prog.get('fuel', fuel))      # directed cases with long loops ask for more
     req = strip_for_model(prog)
     obs = driver.ask('flow.run', pipes=req['pipes'], run=req['run'], rnd=req.get('rnd', []), fuel=fuel)
     obs['sleeps'] = [as_float(num(x)) for x in obs['sleeps']]
